@@ -1,10 +1,11 @@
 SPECIFICATION TSpec
-CONSTANTS NC = 3
+CONSTANTS NC = 128
           Names = {"", "a", "b"}
           Devs = @DEVS@
           MaxOps = 100000
           MaxCrashes = 100000
-INVARIANTS TypeOK IndexesAgree DirtyCovers NoDanglingIndex PinnedPreservedModDev DevReport
+          SyncEvery = 50
+INVARIANTS TypeOK IndexesAgreeModDev DirtyCoversModDev NoDanglingIndex PinnedPreservedModDev DevReport
 CONSTRAINT TraceConstraint
 POSTCONDITION TracePost
 CHECK_DEADLOCK FALSE
